@@ -220,6 +220,38 @@ def check(ctx):
     # ---------------------------------------------------------------- C15.3 links
     check_links(ctx, "link", need_container=True, need_key=True)
 
+    # ---------------------------------------------------------------- C15.3a the path is built from the live parent chain first
+    rp0 = model.method("Config", "_ref_path")
+    g0_ = an.cfg(rp0)
+    static_reads = [n for n in g0_.nodes if n.kind == "attr" and isinstance(n.ast, ast.Attribute) and n.ast.attr == "_ref_path"
+                    and isinstance(n.ast.value, ast.Attribute) and n.ast.value.attr == "_schema"]
+    parent_reads = [n for n in g0_.nodes if n.kind == "attr" and isinstance(n.ast, ast.Attribute) and n.ast.attr == "_ref_path"
+                    and isinstance(n.ast.value, ast.Attribute) and n.ast.value.attr == "_parent"]
+    ctx.need(bool(parent_reads), "Config._ref_path no longer climbs through its parent: vanished anchor")
+    for n in static_reads:
+        okp = any((not tr) and ((isinstance(t.ast, ast.Attribute) and t.ast.attr == "_parent") or
+                                (isinstance(t.ast, ast.Compare) and isinstance(t.ast.left, ast.Attribute) and t.ast.left.attr == "_parent"
+                                 and isinstance(t.ast.ops[0], ast.IsNot)))
+                  or (tr and isinstance(t.ast, ast.Compare) and isinstance(t.ast.left, ast.Attribute) and t.ast.left.attr == "_parent"
+                      and isinstance(t.ast.ops[0], ast.Is))
+                  for t, tr in dominating_guards(an, rp0, n))
+        ctx.ob("path.parent-first", rp0, n.ast, okp,
+               "the schema's static path is used only for a configuration without a parent" if okp else
+               "the schema's static path wins over the parent configuration's path: item indexes and dynamically attached positions "
+               "above this configuration disappear from the reported path", node=n)
+    # ---------------------------------------------------------------- C15.3a' user-supplied keys are formatted safely
+    for f in an.fns():
+        if "ref_path" not in f.name and not (f.cls is not None and f.cls.name == "ValidationError"):
+            continue
+        for x in ast.walk(f.node):
+            if isinstance(x, ast.BinOp) and isinstance(x.op, ast.Mod) and isinstance(x.left, ast.Constant) and isinstance(x.left.value, str) \
+                    and not isinstance(x.right, (ast.Tuple, ast.Dict)) and model.enclosing_function(x) is f:
+                srcs = value_sources(f, x.right, None) if isinstance(x.right, ast.Name) else [("expr", x.right)]
+                risky = [p for k, p in srcs if k in ("param", "iter", "unknown") and p != f.self_name]
+                ctx.ob("path.format-total", f, x, not risky,
+                       "the single %-argument is not a caller-supplied value" if not risky else
+                       "`%s`: a caller-supplied %s is the sole %%-argument -- a tuple key makes the formatting itself raise TypeError, so the "
+                       "rejection surfaces as another exception type" % (ast.unparse(x)[:40], risky[0]), nontrivial=bool(risky))
     # ---------------------------------------------------------------- C15.3b item position
     # (i) the container link is tested for None-ness, not truthiness: a typed list is falsy while empty,
     #     i.e. exactly while its first item is being loaded
